@@ -103,12 +103,13 @@ CHECKS = {
         "exploration",
         "For every protocol version, frames derived from reference-encoded valid responses/callbacks by truncation at every "
         "length (for a rotating twelfth of all 2,751 commands in quick, all in thorough), byte flips, frame-ID substitution "
-        "(known/unknown), sequence substitution, trailing junk, and random strings, with and without a pending command, plus "
+        "(known/unknown), sequence substitution, trailing junk, and random strings, with and without a pending command (also "
+        "one whose caller has already timed out or given up), plus "
         "an atheris coverage-guided campaign with the oracle inside the target. Checked: no exception leaves "
         "EZSP.frame_received; the pending call ends only legitimately (own sequence AND own frame ID, InvalidCommandError from "
         "an invalidCommand frame with its sequence, or timeout not before 10 s); callbacks fire exactly for known-ID frames "
         "that decode and answer no pending call; a fresh getNodeId round trip works afterwards.",
-        "Decodability of a payload is judged with bellows' own deserializer (C07 covers codec correctness).",
+        "Decodability of a payload is judged with bellows' own deserializer, overruled by an independent wire-shape length check when that says the bytes cannot hold the schema.",
         "Hypothesis mutation of valid frames + exhaustive truncation + atheris coverage-guided fuzzing with a containment oracle",
         "DESIGN.md 4/C08",
     ),
@@ -150,7 +151,8 @@ CHECKS = {
         "operations over 5 groups, sizes 0..4, random initial tables whose cleared entries carry arbitrary (also live) group "
         "ids and versions 4/8/13/14. After every operation: host's subscribed set equals the NCP entries with non-zero endpoint, used and free "
         "indices partition the table, a failed call leaves the free count unchanged, re-subscribe is write-free, a full table "
-        "refuses; at the end fresh groups can be subscribed exactly as many times as the NCP has free entries.",
+        "refuses; at the end fresh groups can be subscribed exactly as many times as the NCP has free entries. A quarter of the generated "
+        "histories go through the coordinator endpoint's add_to_group/remove_from_group, whose zigpy membership must follow the NCP.",
         "Host view is read from Multicast._multicast/_available and confirmed behaviourally; unanswered writes are not applied by the simulator.",
         "exhaustive operation sequences to a bound + Hypothesis histories against a model (the simulated table); invariants after every step",
         "DESIGN.md 4/C15",
@@ -175,7 +177,7 @@ CHECKS = {
         "against a simulated NCP on a virtual clock under Hypothesis-generated schedules: response status (OK, refusals, "
         "none) at a generated delay, matching and non-matching status events and scan result/completion callbacks placed "
         "before the request, before the response and after it (including at 10 s boundaries), duplicate completions, caller "
-        "cancellation; 1-8 (thorough 1-20) operations in a row on the same objects, versions 4/6/8/13/14/15. A reference "
+        "cancellation, a second scan request while one runs, transient network states for bring-up, foreign listeners coming and going; 1-8 (thorough 1-20) operations in a row on the same objects, versions 4/6/8/13/14/15. A reference "
         "function computes the set of acceptable outcomes from the schedule (ok / documented refusal error / TimeoutError "
         "inside [request+10 s, response+10 s] / cancelled; scan result lists); after every operation the callback and "
         "status-listener counts must be back at baseline, and a probe event reaches exactly the baseline handlers.",
@@ -190,7 +192,8 @@ CHECKS = {
         "generates scripts of 1-4 bursts of 1-200 concurrent calls over eight method kinds (coroutines returning, raising an "
         "Exception, a non-Exception BaseException, CancelledError; plain methods; a non-callable) and three owner-loop states; "
         "a stopped-not-closed owner loop is run again and must then execute every plain call queued meanwhile; slow coroutine "
-        "calls in flight when the owner's thread is force-stopped must all end for their callers once the loop is closed. Every "
+        "calls in flight when the owner's thread is force-stopped must all end for their callers once the loop is closed; methods of "
+        "the wrapped object that are replaced between two uses (other function, coroutine instead of plain, non-callable). Every "
         "wrapped body records its thread: it must be the owner's; coroutine results/exceptions must reach the caller unchanged "
         "and resume on the caller's loop; cross-thread plain calls return None at once, run exactly once in per-caller FIFO "
         "order, non-None returns and raised exceptions surface in the owner loop's exception handler; owner-loop calls run "
@@ -257,7 +260,7 @@ CHECKS = {
         "EZSP.frame_received into a real ControllerApplication with recorders in place of zigpy's entry points. Exactly one "
         "packet for unicast/multicast/broadcast with source, endpoints, profile, cluster, APS sequence, payload, LQI, RSSI "
         "equal to the encoded ones and destination own-NWK/group/broadcast; none for other types; join/leave/nothing as stated; "
-        "the same for sequences of 2-5 callbacks into one application (own address changing in between, back-to-back arrival, "
+        "the same after the real start_network(), an NCP failure and a second bring-up on a new EZSP object; the same for sequences of 2-5 callbacks into one application (own address changing in between, back-to-back arrival, "
         "manufacturer-code command answered at once / slowly / never).",
         "Application built with the zigpy.util.Requests shim; zigpy's packet_received/handle_join/handle_leave are replaced by recorders.",
         "Hypothesis content generation with an independent byte-level encoder; decoded-packet equality (differential against hand-written layouts)",
